@@ -2,11 +2,11 @@ package main
 
 import (
 	"fmt"
+	"go/token"
+	"go/types"
 	"os"
 	"regexp"
 	"runtime/debug"
-	"go/token"
-	"go/types"
 	"sort"
 	"strings"
 
@@ -18,22 +18,23 @@ import (
 const stride = 1 << 20
 
 type Obligation struct {
-	ID      string
-	Kind    string
-	Func    string // function under contract this obligation belongs to
-	Pos     string
-	Desc    string
-	Prefix  int    // number of script lines that form the context
-	Goal    string // term that must be valid under the context (we check ctx ∧ ¬goal unsat)
-	Cover   bool   // cover query: ctx ∧ goal must be SAT
-	Inputs  []ModelTerm
-	Script  []string // filled at discharge time (shared prefix slice)
-	Verdict string   // "unsat","sat","unknown","timeout"
-	Solver  string
-	Time    float64
-	Raw     string
-	Model   map[string]string
-	Relaxed bool // Raw holds a candidate model of the quantifier-free relaxation
+	ID       string
+	Kind     string
+	Func     string // function under contract this obligation belongs to
+	Pos      string
+	Desc     string
+	Prefix   int    // number of script lines that form the context
+	Goal     string // term that must be valid under the context (we check ctx ∧ ¬goal unsat)
+	Cover    bool   // cover query: ctx ∧ goal must be SAT
+	Inputs   []ModelTerm
+	Script   []string // filled at discharge time (shared prefix slice)
+	Verdict  string   // "unsat","sat","unknown","timeout"
+	Solver   string
+	Time     float64
+	Raw      string
+	Model    map[string]string
+	Relaxed  bool // Raw holds a candidate model of the quantifier-free relaxation
+	TimedOut bool // some solver ran out of time on the full query
 }
 
 type ModelTerm struct {
@@ -61,40 +62,43 @@ type genMerge struct {
 }
 
 type Exec struct {
-	L     *Loader
-	lines []string
-	nf    int
-	onceM map[string]int // memo key -> line index at which it was emitted
-	keySort map[string]string
+	L         *Loader
+	lines     []string
+	nf        int
+	onceM     map[string]int // memo key -> line index at which it was emitted
+	keySort   map[string]string
 	genMerges map[int]*genMerge
-	ngen  int
+	ngen      int
 
-	obls   []*Obligation
-	top    *ssa.Function
-	spec   *FuncSpec
-	flags  map[string]bool
-	assumedUsed map[string]bool
-	inlined map[string]bool
-	stack  []*ssa.Function
-	entry  *State
-	params map[string]Val
-	paramOrder []string
-	ordCount map[string]int
-	checks map[string]bool
-	errs   []string
+	obls         []*Obligation
+	top          *ssa.Function
+	spec         *FuncSpec
+	flags        map[string]bool
+	assumedUsed  map[string]bool
+	inlined      map[string]bool
+	stack        []*ssa.Function
+	entry        *State
+	params       map[string]Val
+	paramOrder   []string
+	ordCount     map[string]int
+	checks       map[string]bool
+	errs         []string
 	loopBodyOnly int
-	inputs []ModelTerm
-	pcNow  string
+	inputs       []ModelTerm
+	pcNow        string
 	disabledAuto map[string]bool
-	locals []localObj
-	argTypes []types.Type
-	argFT    bool
-	specIdx  []string // index terms contracts have read slices at (instantiation candidates)
-	fnStatic    map[string]Val // closure reference -> statically known function and bindings
-	sfromReg    []sfromEntry   // strings taken from byte ranges (for range-precise havoc)
-	ssubReg     []ssubEntry    // substring terms (for the substring-of-bytes lemma)
-	variant0    string         // entry value of the function-level decreases measure
-	ifaceStatic map[string]Val // fresh interface constant -> statically known boxed value
+	locals       []localObj
+	argTypes     []types.Type
+	argFT        bool
+	specIdx      []string       // index terms contracts have read slices at (instantiation candidates)
+	fnStatic     map[string]Val // closure reference -> statically known function and bindings
+	sfromReg     []sfromEntry   // strings taken from byte ranges (for range-precise havoc)
+	ssubReg      []ssubEntry    // substring terms (for the substring-of-bytes lemma)
+	variant0     string         // entry value of the function-level decreases measure
+	ssubCache    map[string]string
+	inCatLemma   bool
+	aliasHint    map[string]map[string]bool
+	ifaceStatic  map[string]Val // fresh interface constant -> statically known boxed value
 }
 
 func newExec(L *Loader, fn *ssa.Function, spec *FuncSpec) *Exec {
@@ -137,7 +141,70 @@ func (e *Exec) assume(c string) {
 	if os.Getenv("GOVC_DEBUG_BOUND") != "" && reBound.MatchString(c) && !strings.Contains(c, "(forall") && !strings.Contains(c, "(exists") {
 		debug.PrintStack()
 	}
+	if strings.Contains(c, "sub!") {
+		e.scanAliases(c)
+	}
+	if e.spec != nil && e.spec.Options["absidx"] && strings.Contains(c, "(forall ((q_") {
+		c = reindexTwins(c)
+	}
 	e.emit("(assert " + c + ")")
+}
+
+// alias hints: an assumption equated the symbol x with the substring name sub (possibly under a
+// condition); used to select the pairs for which the substring-of-substring lemma is instantiated.
+var reSubName = regexp.MustCompile(`^sub![0-9]+$`)
+
+// scanAliases finds the equalities (= T sub!N) / (= sub!N T) inside an assumed formula.
+func (e *Exec) scanAliases(c string) {
+	for i := 0; i+3 < len(c); i++ {
+		if !strings.HasPrefix(c[i:], "(= ") {
+			continue
+		}
+		depth, j := 0, i
+		inq := false
+		for ; j < len(c); j++ {
+			ch := c[j]
+			if ch == '|' {
+				inq = !inq
+			}
+			if inq {
+				continue
+			}
+			if ch == '(' {
+				depth++
+			} else if ch == ')' {
+				depth--
+				if depth == 0 {
+					break
+				}
+			}
+		}
+		if j >= len(c) {
+			return
+		}
+		args := splitArgs(c[i+3 : j])
+		if len(args) != 2 {
+			continue
+		}
+		if reSubName.MatchString(args[1]) {
+			e.noteAlias(args[0], args[1])
+		} else if reSubName.MatchString(args[0]) {
+			e.noteAlias(args[1], args[0])
+		}
+	}
+}
+
+func (e *Exec) noteAlias(x, sub string) {
+	if x == sub {
+		return
+	}
+	if e.aliasHint == nil {
+		e.aliasHint = map[string]map[string]bool{}
+	}
+	if e.aliasHint[x] == nil {
+		e.aliasHint[x] = map[string]bool{}
+	}
+	e.aliasHint[x][sub] = true
 }
 
 func (e *Exec) flag(s string) { e.flags[s] = true }
